@@ -7,6 +7,7 @@
 #include "vlafem.hpp"
 #include <kernel/adjacency/graph.hpp>
 #include <kernel/adjacency/adjactor.hpp>
+#include <kernel/adjacency/dynamic_graph.hpp>
 #include <kernel/adjacency/permutation.hpp>
 #include <kernel/adjacency/coloring.hpp>
 #include <kernel/adjacency/cuthill_mckee.hpp>
@@ -115,9 +116,108 @@ static bool matperm_typed(const vj::Value& c, std::string& why)
   return true;
 }
 
+
+// ---- DynamicGraph (set-valued relation): its value as a graph record through the adjactor interface ---------------
+static vj::Value dyn_json(const DynamicGraph& d)
+{
+  vj::Value r = vj::Value::object(), p = vj::Value::array(), x = vj::Value::array();
+  r["nd"] = (long long)d.get_num_nodes_domain(); r["ni"] = (long long)d.get_num_nodes_image();
+  long long cnt = 0; p.push(vj::Value(0ll));
+  for(Index i = 0; i < d.get_num_nodes_domain(); ++i)
+  {
+    for(auto it = d.image_begin(i); it != d.image_end(i); ++it) { x.push(vj::Value((long long)*it)); ++cnt; }
+    p.push(vj::Value(cnt));
+  }
+  r["ptr"] = p; r["idx"] = x;
+  return r;
+}
+
+// every observer of the DynamicGraph must agree with the predicted value
+static bool dyn_is(const DynamicGraph& d, const vj::Value& exp, std::string& why, const std::string& what)
+{
+  vj::Value got = dyn_json(d);
+  if(!same_graph(got, exp, true, why)) { why = what + ": " + why; return false; }
+  IVec p = exp["ptr"].ints(), x = exp["idx"].ints();
+  const long long nd = exp["nd"].as_int(), ni = exp["ni"].as_int();
+  long long maxdeg = 0;
+  for(long long i = 0; i < nd; ++i)
+  {
+    const long long deg = p[i + 1] - p[i]; maxdeg = std::max(maxdeg, deg);
+    if((long long)d.degree(Index(i)) != deg) { why = what + ": degree(" + std::to_string(i) + ") = " + std::to_string(d.degree(Index(i))); return false; }
+    for(long long j = 0; j < ni; ++j)
+    {
+      const bool want = std::find(x.begin() + p[i], x.begin() + p[i + 1], j) != x.begin() + p[i + 1];
+      if(d.exists(Index(i), Index(j)) != want) { why = what + ": exists(" + std::to_string(i) + "," + std::to_string(j) + ") = " + (want ? "false" : "true"); return false; }
+    }
+  }
+  if((long long)d.degree() != maxdeg) { why = what + ": degree() = " + std::to_string(d.degree()); return false; }
+  if((long long)d.get_num_indices() != (long long)x.size()) { why = what + ": get_num_indices() = " + std::to_string(d.get_num_indices()); return false; }
+  // conversion back to a Graph, and a DynamicGraph of the DynamicGraph
+  Graph back(RenderType::as_is, d);
+  if(!same_graph(g_json(back), exp, true, why)) { why = what + ": Graph(as_is, dynamic graph): " + why; return false; }
+  DynamicGraph cl = d.clone();
+  if(!same_graph(dyn_json(cl), exp, true, why)) { why = what + ": clone(): " + why; return false; }
+  return true;
+}
+
+static vj::Value run_dyn(const vj::Value& c)
+{
+  const std::string op = c["op"].as_str(), t = c["t"].as_str();
+  std::string why;
+  Graph g1 = make_g(c["g1"], 0);
+  const vj::Value snap1 = g_json(g1);
+  if(op == "dyn_render")
+  {
+    DynamicGraph d(rtype(t), g1);
+    if(!dyn_is(d, c["exp"], why, "DynamicGraph(" + t + ", g)")) return vh::bad(why, c["exp"], dyn_json(d));
+  }
+  else if(op == "dyn_render2")
+  {
+    Graph g2 = make_g(c["g2"], 1);
+    DynamicGraph d(rtype(t), g1, g2);
+    if(!dyn_is(d, c["exp"], why, "DynamicGraph(" + t + ", g1, g2)")) return vh::bad(why, c["exp"], dyn_json(d));
+    // the same through a DynamicGraph as first / second adjactor
+    DynamicGraph d1(RenderType::as_is, g1), d2(RenderType::as_is, g2);
+    DynamicGraph dd(rtype(t), d1, d2);
+    if(!dyn_is(dd, c["exp"], why, "DynamicGraph(" + t + ", dyn1, dyn2)")) return vh::bad(why, c["exp"], dyn_json(dd));
+    if(g_json(g2) != c["g2"]) return vh::bad("second adjactor modified");
+  }
+  else if(op == "dyn_compose")
+  {
+    Graph g2 = make_g(c["g2"], 1);
+    DynamicGraph d(RenderType::as_is, g1);
+    d.compose(g2);
+    if(!dyn_is(d, c["exp"], why, "DynamicGraph(as_is, g1).compose(g2)")) return vh::bad(why, c["exp"], dyn_json(d));
+  }
+  else if(op == "dyn_edit")
+  {
+    DynamicGraph d(RenderType::as_is, g1);
+    const Index i = Index(c["ei"].as_int()), j = Index(c["ej"].as_int());
+    const bool ret = (t == "insert") ? d.insert(i, j) : d.erase(i, j);
+    if(ret != c["ret"].as_bool()) return vh::bad(t + "(" + std::to_string(i) + "," + std::to_string(j) + ") returned " + (ret ? "true" : "false"));
+    if(!dyn_is(d, c["exp"], why, "after " + t + "(" + std::to_string(i) + "," + std::to_string(j) + ")")) return vh::bad(why, c["exp"], dyn_json(d));
+    // undo: the opposite edit restores the rendering of g1
+    const bool ret2 = (t == "insert") ? (ret ? d.erase(i, j) : true) : (ret ? d.insert(i, j) : true);
+    DynamicGraph d0(RenderType::as_is, g1);
+    if(!ret2 || dyn_json(d) != dyn_json(d0)) return vh::bad("undoing " + t + " does not restore the graph");
+  }
+  else if(op == "dyn_clear")
+  {
+    DynamicGraph d(RenderType::as_is, g1);
+    d.clear();
+    if(!dyn_is(d, c["exp"], why, "after clear()")) return vh::bad(why, c["exp"], dyn_json(d));
+    DynamicGraph e(Index(c["g1"]["nd"].as_int()), Index(c["g1"]["ni"].as_int()));
+    if(!dyn_is(e, c["exp"], why, "DynamicGraph(nd, ni)")) return vh::bad(why, c["exp"], dyn_json(e));
+  }
+  else return vh::bad("unknown DynamicGraph op " + op);
+  if(g_json(g1) != snap1) return vh::bad("source graph modified by " + op);
+  return vh::ok();
+}
+
 static vj::Value run_graph(const vj::Value& c)
 {
   const std::string op = c["op"].as_str();
+  if(op.compare(0, 4, "dyn_") == 0) return run_dyn(c);
   std::string why;
   if(op == "matperm")
   {
